@@ -36,10 +36,10 @@ def is_ve(kind):
 
 
 class Event:
-    __slots__ = ('kind', 'node', 'env', 'chain', 'why', 'mod')
+    __slots__ = ('kind', 'node', 'env', 'chain', 'why', 'mod', 'reg')
 
-    def __init__(self, kind, node, env, chain, why, mod):
-        self.kind, self.node, self.env, self.chain, self.why, self.mod = kind, node, env, chain, why, mod
+    def __init__(self, kind, node, env, chain, why, mod, reg=None):
+        self.kind, self.node, self.env, self.chain, self.why, self.mod, self.reg = kind, node, env, chain, why, mod, reg
 
 
 class Ctx:
@@ -51,12 +51,13 @@ class Ctx:
         self.unsupported = []
         self.reg_obligations = []
         self.notes = []
+        self.visited = set()      # partial operations reached: (module, line, col, kind)
 
-    def raise_(self, kind, node, env, why=''):
+    def raise_(self, kind, node, env, why='', reg=None):
         if env.dead:
             return
         mod = self.stack[-1][0] if self.stack else '?'
-        self.scopes[-1].append(Event(kind, node, env.copy(), tuple(self.stack), why, mod))
+        self.scopes[-1].append(Event(kind, node, env.copy(), tuple(self.stack), why, mod, reg))
 
     def unsup(self, node, what):
         mod = self.stack[-1] if self.stack else ('?', '?')
@@ -65,6 +66,7 @@ class Ctx:
 
 class Exec:
     """Mixin with statement execution; Interp (interp.py) adds expressions."""
+    SUMMARISED = {('stdnum.util', 'clean'), ('stdnum.util', 'get_cc_module'), ('stdnum.numdb', 'get'), ('stdnum.util', 'get_soap_client')}
 
     def exec_block(self, stmts, envs):
         """Run statements on a list of envs. Returns (normal_envs, completions) where completions are
@@ -135,6 +137,13 @@ class Exec:
         if isinstance(st, ast.Return):
             if st.value is None:
                 return [], [('return', env, NONE)]
+            if self.is_predicate_expr(st.value):
+                # a predicate's return paths are kept apart by truth value, each refined by what makes it so
+                outs = []
+                for truth in (True, False):
+                    for e in self.assume(st.value, truth, env.copy()):
+                        outs.append(('return', e, Bool(truth)))
+                return [], outs
             outs = self.eval_multi(st.value, env)
             return [], [('return', e, v) for e, v in outs if not e.dead]
         if isinstance(st, ast.Raise):
@@ -177,11 +186,28 @@ class Exec:
         ctx.unsup(st, 'stmt ' + type(st).__name__)
         return [env], []
 
+    PRED_FUNCS = {'bool', 'all', 'any'}
+    PRED_METHODS = {'startswith', 'endswith', 'isdigit', 'isalpha', 'isalnum', 'isdecimal', 'isspace'}
+
+    def is_predicate_expr(self, node):
+        if isinstance(node, ast.Compare):
+            return True
+        if isinstance(node, ast.UnaryOp) and isinstance(node.op, ast.Not):
+            return True
+        if isinstance(node, ast.BoolOp):
+            return all(self.is_predicate_expr(v) for v in node.values)
+        if isinstance(node, ast.Call):
+            if isinstance(node.func, ast.Name) and node.func.id in self.PRED_FUNCS:
+                return True
+            if isinstance(node.func, ast.Attribute) and node.func.attr in self.PRED_METHODS:
+                return True
+        return False
+
     def eval_multi(self, node, env):
         """Evaluate an expression; a direct call to a repo function keeps its return paths apart."""
         if isinstance(node, ast.Call) and not any(isinstance(a, ast.Starred) for a in node.args):
             fn = self.eval(node.func, env)
-            if isinstance(fn, Func) and not fn.mod.startswith('stdnum.util') and (fn.mod, fn.name) != ('stdnum.numdb', 'get'):
+            if isinstance(fn, Func) and (fn.mod, fn.name) not in self.SUMMARISED:
                 args = [self.eval(a, env) for a in node.args]
                 kwargs = {k.arg: self.eval(k.value, env) for k in node.keywords if k.arg is not None}
                 if env.dead:
